@@ -96,11 +96,11 @@ def run(variant: str, ch: e2.Choices, bound: int) -> Dict[str, Any]:
             inst.__exit__(None, None, None)
 
 
-def explore(variant: str, bound: int, max_execs: int = 60000):
+def explore(variant: str, bound: int, max_execs: int = 60000, root=None):
     results = []
 
     def on_exec(ch, out):
         results.append((list(ch.taken), out))
 
-    n, capped = e2.explore(lambda ch: run(variant, ch, bound), on_exec=on_exec, max_execs=max_execs)
+    n, capped = e2.explore(lambda ch: run(variant, ch, bound), on_exec=on_exec, max_execs=max_execs, root=root)
     return results, n, capped
